@@ -27,13 +27,15 @@ from hypothesis import strategies as st
 
 from . import scripts as S
 
-VALUES = [None, "", "0", "1", "x", "y z", "${V0:-d}", "${V1:-}", "$(eq,${V2:-},x)", "a\\'b\\\"c", "true"]
+VALUES = [None, "", "0", "1", "x", "y z", "${V0:-d}", "${V1:-}", "$(eq,${V2:-},x)", "a\\'b\\\"c", "true",
+          "$(is-tool-defined,t0)", "${V3+set}", "${V4:+alt}", "$(is-sandbox-enabled)"]
 PLAIN_VALUES = ["", "0", "1", "x", "y z", "true"]
 TOOLPATHS = [".", "bin0", "bin1"]
 TOOLLIBS = [[], ["lib0"], ["lib0", "bin1"]]
 USE = [None, ["result"], ["result", "deps"], ["result", "deps", "environment"], ["result", "tools"],
        ["tools"], ["environment"], ["result", "deps", "environment", "tools"], ["deps"]]
-CONDS = [None, None, None, "${V0:-0}", "$(eq,${V1:-},x)", "!expr:\"${V0:-}\" == \"1\"", "!expr:\"${V3:-}\" != \"\"", "true", "0"]
+CONDS = [None, None, None, "${V0:-0}", "$(eq,${V1:-},x)", "!expr:\"${V0:-}\" == \"1\"", "!expr:\"${V3:-}\" != \"\"", "true", "0",
+         "$(is-tool-defined,t1)", "${V2+1}", "$(is-sandbox-enabled)"]
 STEPS = ("checkout", "build", "package")
 T0 = 1_400_000_000 * 10**9
 
@@ -216,7 +218,7 @@ def _steps_st(draw, fid, has_checkout, richness):
 def _env_st(draw, maxn=2, values=VALUES):
     return {k: draw(st.sampled_from(values)) for k in draw(st.lists(st.sampled_from(S.VARS), max_size=maxn, unique=True))}
 
-def _body(draw, fid, i, n, later_pkgs, tool_providers, classes, richness):
+def _body(draw, fid, i, n, later_pkgs, tool_providers, classes, richness, dense=False):
     b = {"root": i == 0, "inherit": [], "depends": [], "environment": {}, "privateEnvironment": {}, "metaEnvironment": {},
          "provideVars": {}, "provideDeps": [], "provideTools": {}, "checkoutDeterministic": False, "import": False,
          "shared": False, "relocatable": None, "tooldirs": False, "fp": False}
@@ -233,7 +235,7 @@ def _body(draw, fid, i, n, later_pkgs, tool_providers, classes, richness):
     if draw(st.integers(0, 2)) == 0: b["provideVars"] = _env_st(draw, 2)
     # dependencies to later packages
     if later_pkgs:
-        ndeps = draw(st.integers(0 if i else 1, min(3, len(later_pkgs))))
+        ndeps = draw(st.integers(min(2, len(later_pkgs)) if dense else (0 if i else 1), min(3, len(later_pkgs))))
         names = draw(st.lists(st.sampled_from(later_pkgs), min_size=ndeps, max_size=ndeps, unique=True))
         for nm in names:
             d = {"name": nm, "use": draw(st.sampled_from(USE)), "forward": draw(st.integers(0, 3)) == 0,
@@ -259,7 +261,7 @@ def _body(draw, fid, i, n, later_pkgs, tool_providers, classes, richness):
     if draw(st.integers(0, 5)) == 0: b["relocatable"] = draw(st.booleans())
     return b
 
-def model_st(min_recipes=2, max_recipes=7, richness=1, multi=True):
+def model_st(min_recipes=2, max_recipes=7, richness=1, multi=True, dense=False):
     """richness 0: structure only, 1: classes/tools/weak vars, 2: + shared"""
     @st.composite
     def mk(draw):
@@ -302,7 +304,7 @@ def model_st(min_recipes=2, max_recipes=7, richness=1, multi=True):
         for i in reversed(range(n)):
             later = [p for j in range(i + 1, n) for p in pkgs_of[j]]
             tp = [(p, t) for j, ts in provider_of.items() if j > i for t in ts for p in pkgs_of[j][:1]]
-            body = _body(draw, fid, i, n, later, tp, classes, richness)
+            body = _body(draw, fid, i, n, later, tp, classes, richness, dense)
             if i in provider_of:
                 for t in provider_of[i]:
                     body["provideTools"][t] = {"path": draw(st.sampled_from(TOOLPATHS)), "libs": draw(st.sampled_from(TOOLLIBS)),
